@@ -552,7 +552,7 @@ def job_longpath(res, rng, w, home, job):
         os.mkdir("lp")
         os.chdir("lp")
         depth = 0
-        while len(os.path.join(w, "lp")) + (depth + 1) * (len(seg) + 1) < 3950:
+        while len("lp") + (depth + 1) * (len(seg) + 1) < 4060:       # the path as fselect spells it (relative to the cwd) is what counts
             os.mkdir(seg)
             os.chdir(seg)
             depth += 1
